@@ -301,7 +301,10 @@ class BasisSHO(BasisSet):
             mat = -1.0j/2 *(self.op_mat(r"b b")
                     - self.op_mat(r"b^\dagger b^\dagger")
                     - self.op_mat(r"b b^\dagger")
-                    + self.op_mat(r"b^\dagger b")) + self.x0 * self.op_mat("p")
+                    + self.op_mat(r"b^\dagger b"))
+            if self.dvr:
+                mat = self.dvr_v.T @ mat @ self.dvr_v
+            mat = mat + self.x0 * self.op_mat("p")
 
         elif op_symbol == "x dx":
             # x dx is real, while x p is imaginary
@@ -312,7 +315,10 @@ class BasisSHO(BasisSet):
             mat = -1.0j/2 *(self.op_mat(r"b b")
                     - self.op_mat(r"b^\dagger b^\dagger")
                     + self.op_mat(r"b b^\dagger")
-                    - self.op_mat(r"b^\dagger b")) + self.x0 * self.op_mat("p")
+                    - self.op_mat(r"b^\dagger b"))
+            if self.dvr:
+                mat = self.dvr_v.T @ mat @ self.dvr_v
+            mat = mat + self.x0 * self.op_mat("p")
 
         elif op_symbol == "dx x":
             mat = (self.op_mat("p x") / -1.0j).real
